@@ -646,6 +646,8 @@ fn map_size(len: usize, is_array_element: &IsArrayElement) -> Result<usize, usiz
 pub struct TupleStructSerializer<'a> {
     field_role: FieldRole,
     cumulated_size: usize,
+    /// Size of the descriptor, which precedes the list and is not part of its body
+    descriptor_size: usize,
     se: &'a mut SizeSerializer,
 }
 
@@ -653,6 +655,7 @@ impl<'a> TupleStructSerializer<'a> {
     fn descriptor(se: &'a mut SizeSerializer) -> Self {
         Self {
             cumulated_size: 0,
+            descriptor_size: 0,
             field_role: FieldRole::Descriptor,
             se,
         }
@@ -661,6 +664,7 @@ impl<'a> TupleStructSerializer<'a> {
     fn fields(se: &'a mut SizeSerializer) -> Self {
         Self {
             cumulated_size: 0,
+            descriptor_size: 0,
             field_role: FieldRole::Fields,
             se,
         }
@@ -679,7 +683,7 @@ impl ser::SerializeTupleStruct for TupleStructSerializer<'_> {
             FieldRole::Descriptor => {
                 self.field_role = FieldRole::Fields;
                 let mut serializer = SizeSerializer::new();
-                self.cumulated_size += value.serialize(&mut serializer)?;
+                self.descriptor_size += value.serialize(&mut serializer)?;
                 Ok(())
             }
             FieldRole::Fields => match self.se.struct_encoding() {
@@ -714,11 +718,12 @@ impl ser::SerializeTupleStruct for TupleStructSerializer<'_> {
             StructEncoding::DescribedList => {
                 let _ = self.se.struct_encoding.pop();
                 list_size(self.cumulated_size, &self.se.is_array_element)
+                    .map(|size| self.descriptor_size + size)
                     .map_err(|_| Error::too_long())
             }
             StructEncoding::DescribedBasic => {
                 let _ = self.se.struct_encoding.pop();
-                Ok(self.cumulated_size)
+                Ok(self.descriptor_size + self.cumulated_size)
             }
             StructEncoding::DescribedMap => {
                 unreachable!("TupleStructSerializer is NOT used for DescribedMap")
@@ -731,6 +736,8 @@ impl ser::SerializeTupleStruct for TupleStructSerializer<'_> {
 #[derive(Debug)]
 pub struct StructSerializer<'a> {
     cumulated_size: usize,
+    /// Size of the descriptor, which precedes the list or map and is not part of its body
+    descriptor_size: usize,
     se: &'a mut SizeSerializer,
 }
 
@@ -738,6 +745,7 @@ impl<'a> StructSerializer<'a> {
     fn new(se: &'a mut SizeSerializer) -> Self {
         Self {
             cumulated_size: 0,
+            descriptor_size: 0,
             se,
         }
     }
@@ -754,7 +762,7 @@ impl ser::SerializeStruct for StructSerializer<'_> {
         use ser::Serialize;
 
         if key == DESCRIPTOR {
-            self.cumulated_size += value.serialize(&mut *self.se)?;
+            self.descriptor_size += value.serialize(&mut *self.se)?;
             Ok(())
         } else {
             match self.se.struct_encoding() {
@@ -791,16 +799,18 @@ impl ser::SerializeStruct for StructSerializer<'_> {
             StructEncoding::DescribedList => {
                 let _ = self.se.struct_encoding.pop();
                 list_size(self.cumulated_size, &self.se.is_array_element)
+                    .map(|size| self.descriptor_size + size)
                     .map_err(|_| Error::too_long())
             }
             StructEncoding::DescribedMap => {
                 let _ = self.se.struct_encoding.pop();
                 map_size(self.cumulated_size, &self.se.is_array_element)
+                    .map(|size| self.descriptor_size + size)
                     .map_err(|_| Error::too_long())
             }
             StructEncoding::DescribedBasic => {
                 let _ = self.se.struct_encoding.pop();
-                Ok(self.cumulated_size)
+                Ok(self.descriptor_size + self.cumulated_size)
             }
         }
     }
